@@ -180,17 +180,22 @@ def mixed_risks(spec):
 
 
 def kernel_risks(spec, vec):
-    """vectorized build: a merged source variable whose gamma-kernel edges use more than one (delay, spread) pair"""
+    """vectorized build: a source variable whose gamma-kernel edges use more than one (delay, spread) pair and whose delay buffer has
+    several slots - the source is a merged variable, or its delayed edges reach a merged target group (thorough run #8: one source
+    node, four structurally identical targets, two kernels)"""
     if not vec:
         return set()
     _, edge_list, group, node_group = c04.groups_of(spec)
-    ks = {}
+    ks, wide = {}, set()
     for s_, t_, et, a in edge_list:
         if a.get('delay') and a.get('spread'):
             sn, so, sv = s_.rsplit('/', 2)
-            if len(group[node_group[sn]]) > 1:
-                ks.setdefault((node_group[sn], so, sv), set()).add((a['delay'], a['spread']))
-    return {'several_kernels_one_merged_source'} if any(len(v) > 1 for v in ks.values()) else set()
+            tn = t_.rsplit('/', 2)[0]
+            key = (node_group[sn], so, sv)
+            ks.setdefault(key, set()).add((a['delay'], a['spread']))
+            if len(group[node_group[sn]]) > 1 or len(group[node_group[tn]]) > 1:
+                wide.add(key)
+    return {'several_kernels_one_merged_source'} if any(len(v) > 1 and k in wide for k, v in ks.items()) else set()
 
 
 def run_matrix_case(case, ctx):
